@@ -14,7 +14,7 @@ NO_ATHROW = {"chain"}   # class-based handles without athrow
 ITER_TOOLS = ["filter", "filterfalse", "enumerate", "takewhile", "dropwhile", "starmap", "accumulate", "batched",
               "chain", "compress", "cycle", "islice", "pairwise", "zip", "map", "zip_longest", "merge"]
 AGG_TOOLS = ["all", "any", "sum", "min", "max", "list", "tuple", "set", "dict", "sorted", "reduce", "nlargest", "nsmallest"]
-NO_MODEL = {"set", "dict"}   # outside the Lean value model (oracle only)
+NO_MODEL = set()   # (set and dict used to be oracle-only; they are modelled since Std.setLoop / Std.dictLoop)
 TOOL_NAMES = ITER_TOOLS + AGG_TOOLS
 
 
